@@ -30,21 +30,149 @@ def kernel_mode(chk, mod, code):
     return ex.env["f"].read([i]), args, i
 
 
-def spec_mode(name, args, i):
-    v = args["vPts"].fn(i)
-    fam = (Symbol("arr_kts"), args["deg"], Symbol("arr_coeffs"))
-    consts = [args[n] for n in ("CN0", "kN0", "deltaRN0", "rp", "CTi", "kTi", "deltaRTi")]
-    out = sp.Or(sp.Lt(v, args["vMin"]), sp.Gt(v, args["vMax"]))
+def spec_quantities(args, i):
+    """the quantities the specification is written in, as the kernel names them: foot of node i, domain ends, radius, spline family,
+    equilibrium constants"""
+    return {"v": args["vPts"].fn(i), "vMin": args["vMin"], "vMax": args["vMax"], "rPos": args["rPos"],
+            "fam": (Symbol("arr_kts"), args["deg"], Symbol("arr_coeffs")),
+            "consts": [args[n] for n in ("CN0", "kN0", "deltaRN0", "rp", "CTi", "kTi", "deltaRTi")]}
+
+
+def spec_mode(name, q, i=None):
+    if not (isinstance(q, dict) and "v" in q):
+        q = spec_quantities(q, i)
+    v, fam, consts = q["v"], q["fam"], q["consts"]
+    out = sp.Or(sp.Lt(v, q["vMin"]), sp.Gt(v, q["vMax"]))
     if name == "fEq":
-        return ITE(out, FEQ(args["rPos"], v, *consts), S1(v, 0, *fam))
+        return ITE(out, FEQ(q["rPos"], v, *consts), S1(v, 0, *fam))
     if name == "null":
         return ITE(out, Integer(0), S1(v, 0, *fam))
     if name == "periodic":
-        w = args["vMax"] - args["vMin"]
-        v1 = WhileShift(v, Integer(1), args["vMin"], w)
-        v2 = WhileShift(v1, Integer(3), args["vMax"], -w)
+        w = q["vMax"] - q["vMin"]
+        v1 = WhileShift(v, Integer(1), q["vMin"], w)
+        v2 = WhileShift(v1, Integer(3), q["vMax"], -w)
         return S1(v2, 0, *fam)
     raise AnalysisError(name)
+
+
+# ------------------------------------------------------------------ caller + kernel as one unit
+CONST_NAMES = ("CN0", "kN0", "deltaRN0", "rp", "CTi", "kTi", "deltaRTi")
+
+
+def step_call_model(chk, kmod):
+    """the kernel call of VParallelAdvection.step with what step computes for it: single-assignment locals written out, the nodes
+    self._points, the arguments c, dt, r of step, the spline data and the constants as canonical quantities.
+    -> {'call', 'bind' (wrapper formal -> resolved actual), 'values' (wrapper formal -> symbolic value), 'why', 'canon'}"""
+    from .C10 import single_defs, resolved
+    from ..symx import Arr, Vec
+    import copy
+    step = chk.func(U.ADV, "VParallelAdvection.step")
+    calls = [c for c in ast.walk(step) if isinstance(c, ast.Call) and isinstance(c.func, ast.Name)
+             and c.func.id == "v_parallel_advection_eval_step"]
+    if len(calls) != 1:
+        return None
+    c = calls[0]
+    defs = single_defs(step)
+    wformals = [a.arg for a in kmod.func("v_parallel_advection_eval_step").args.args]
+    cr = ast.Call(func=c.func, args=[resolved(a, defs) for a in c.args],
+                  keywords=[ast.keyword(arg=k.arg, value=resolved(k.value, defs)) for k in c.keywords])
+    b = agree.bind_call(cr, wformals) or {}
+
+    class Canon(ast.NodeTransformer):
+        def visit_Subscript(self, node):
+            if src(node.value) == "self._points" and not isinstance(node.slice, (ast.Slice, ast.Tuple)):
+                idx = node.slice
+                if isinstance(idx, ast.UnaryOp) and isinstance(idx.op, ast.USub) and isinstance(idx.operand, ast.Constant):
+                    # a negative index counts from the end
+                    idx = ast.BinOp(left=ast.Call(func=ast.Name(id="len", ctx=ast.Load()), args=[ast.Name(id="P", ctx=ast.Load())], keywords=[]),
+                                    op=ast.Sub(), right=idx.operand)
+                return ast.Subscript(value=ast.Name(id="P", ctx=ast.Load()), slice=idx, ctx=ast.Load())
+            return self.generic_visit(node)
+
+        def visit_Attribute(self, node):
+            s_ = src(node)
+            if s_ == "self._points":
+                return ast.Name(id="P", ctx=ast.Load())
+            m_ = {"self._spline.basis.knots": "kts", "self._spline.coeffs": "coeffs", "self._spline.basis.degree": "deg",
+                  "self._spline.basis.cubic_uniform": "cubic_uniform_splines", "self._edgeType": "bound",
+                  "self._points.size": "__nP"}.get(s_)
+            if m_:
+                return ast.Name(id=m_, ctx=ast.Load())
+            if s_.startswith("self._constants.") and s_.split(".")[-1] in CONST_NAMES:
+                return ast.Name(id=s_.split(".")[-1], ctx=ast.Load())
+            return self.generic_visit(node)
+    P = Arr("P")
+    env = {"P": P, "kts": Arr("kts"), "coeffs": Arr("coeffs"), "deg": Symbol("deg", integer=True), "bound": Symbol("bound", integer=True),
+           "cubic_uniform_splines": Symbol("cubic_uniform_splines", integer=True), "f": Arr("f"),
+           "c": Symbol("c", real=True), "dt": Symbol("dt", real=True), "r": Symbol("rPos", real=True),
+           "__nP": Symbol("n0_P", integer=True, positive=True)}
+    env.update({n_: Symbol(n_, real=True) for n_ in CONST_NAMES})
+    ex0 = SymExec(step, env, calls={})
+    values, why = {}, {}
+    for f_, a_ in b.items():
+        try:
+            from .C05 import library_forms
+            v = ex0.ev(ast.fix_missing_locations(library_forms(Canon().visit(copy.deepcopy(a_)))))
+            if isinstance(v, Vec):
+                arr_ = Arr(f_, generic=lambda ix, v=v: v.f(tuple(ix)))
+                arr_.length = Symbol("n0_P", integer=True, positive=True)
+                v = arr_
+            values[f_] = v
+        except Undecided as e:
+            why[f_] = f"`{src(a_)[:60]}`: {e}"
+    i = Symbol("i", integer=True)
+    nP = Symbol("n0_P", integer=True, positive=True)
+    canon = {"v": P.fn(i) - env["c"] * env["dt"], "vMin": P.fn(Integer(0)), "vMax": P.fn(nP - 1), "rPos": env["r"],
+             "fam": (Symbol("arr_kts"), env["deg"], Symbol("arr_coeffs")), "consts": [env[n_] for n_ in CONST_NAMES]}
+    return {"call": c, "bind": b, "values": values, "why": why, "canon": canon, "defs": defs}
+
+
+def composed_mode(chk, mod, code, model):
+    """f[i] as the kernel computes it for the arguments step hands over (through the dispatch wrapper): (expression, i)"""
+    from .C05 import structured
+    fn, why = structured(mod.func(GEN))
+    if why:
+        raise Undecided(why)
+    w = mod.func("v_parallel_advection_eval_step")
+    wf = [a.arg for a in w.args.args]
+    gf = [a.arg for a in fn.args.args]
+    inner = [c for c in ast.walk(w) if isinstance(c, ast.Call) and isinstance(c.func, ast.Name) and c.func.id == GEN]
+    if not inner:
+        raise Undecided("the dispatch wrapper does not call the general routine")
+    b = agree.bind_call(inner[0], gf) or {}
+    ov, missing = {}, []
+    for f_, a_ in b.items():
+        if isinstance(a_, ast.Name) and a_.id in wf:
+            if a_.id in model["values"]:
+                ov[f_] = model["values"][a_.id]
+            elif a_.id in model["why"]:
+                # not followed: an opaque value under a name of its own (it must not pass for the quantity the parameter is named after)
+                from ..symx import Arr
+                missing.append(model["why"][a_.id])
+                ann = next((src(x.annotation) for x in fn.args.args if x.arg == f_ and x.annotation is not None), "")
+                ov[f_] = Arr("unfollowed_" + f_) if "[" in ann else Symbol("unfollowed_" + f_, real=True)
+    bound_formal = next((f_ for f_, a_ in b.items() if isinstance(a_, ast.Name) and isinstance(model["bind"].get(a_.id), ast.AST)
+                         and src(model["bind"][a_.id]) == "self._edgeType"), "bound")
+    ov[bound_formal] = Integer(code)
+    ov.pop("f", None)
+    args = make_args(fn, funcs={"eval_spline_1d_scalar": h_scalar1}, overrides=ov)
+    ex = SymExec(fn, args, calls=dict(SPLINE_HANDLERS))
+    ex.run()
+    i = Symbol("i", integer=True)
+    fo = next((v_ for k_, v_ in ex.env.items() if k_ == "f"), None)
+    if fo is None:
+        raise Undecided("the kernel has no parameter `f`")
+    got = fo.read([i])
+    # a parameter whose value at the call in step was not followed must not decide the comparison
+    known = {"P", "f_eq", "S1"}
+    opaque = sorted({str(a.func) for a in got.atoms(sp.Function) if str(a.func) in gf and str(a.func) not in known} |
+                    {str(x) for x in got.free_symbols if str(x) in gf and str(x) not in ("deg", "i") + CONST_NAMES and str(x) not in ov})
+    opaque += sorted({str(a.func)[11:] for a in got.atoms(sp.Function) if str(a.func).startswith("unfollowed_")} |
+                     {str(x).replace("arr_", "")[11:] for x in got.free_symbols if str(x).startswith(("unfollowed_", "arr_unfollowed_"))})
+    if opaque:
+        raise Undecided(f"f[i] depends on the kernel argument(s) {opaque} whose value at the call in step was not followed"
+                        + (f" ({'; '.join(missing)})" if missing else ""))
+    return got, i
 
 
 def _ws_entry(W, inner=None):
@@ -104,24 +232,64 @@ def sym_equal_ws(a, b, max_atoms=10):
     return True, None
 
 
-def edge_codes(chk):
-    """E-enum: string -> code table of VParallelAdvection.__init__"""
+def _literal_dict(d):
+    if isinstance(d, ast.Dict) and all(isinstance(k, ast.Constant) and isinstance(v, ast.Constant) for k, v in zip(d.keys, d.values)):
+        return {k.value: v.value for k, v in zip(d.keys, d.values)}
+    if isinstance(d, ast.Call) and isinstance(d.func, ast.Name) and d.func.id == "dict" and not d.args and \
+            all(k.arg is not None and isinstance(k.value, ast.Constant) for k in d.keywords):
+        return {k.arg: k.value.value for k in d.keywords}
+    return None
+
+
+def mode_attribute(chk, kmod):
+    """the attribute step hands to the kernel as boundary mode (the parameter the kernel branches on with integer literals)"""
+    try:
+        step = chk.func(U.ADV, "VParallelAdvection.step")
+        calls = [c for c in ast.walk(step) if isinstance(c, ast.Call) and isinstance(c.func, ast.Name) and c.func.id == "v_parallel_advection_eval_step"]
+        formals = [a.arg for a in kmod.func("v_parallel_advection_eval_step").args.args]
+        b = agree.bind_call(calls[0], formals) or {} if len(calls) == 1 else {}
+        a = b.get("bound")
+        if isinstance(a, ast.Attribute) and isinstance(a.value, ast.Name) and a.value.id == "self":
+            return src(a)
+    except AnalysisError:
+        pass
+    return "self._edgeType"
+
+
+def edge_codes(chk, attr="self._edgeType"):
+    """E-enum: string -> code table behind the attribute the kernel receives as boundary mode: (table, unknown strings refused?, node).
+    Forms: if/elif chain on `edge` with constant assignments; look-up `TABLE[edge]` in a literal dict that is written in place, bound
+    to a local, a class attribute (self.X / Class.X) or a module-level name"""
     fn = chk.func(U.ADV, "VParallelAdvection.__init__")
+    mod = chk.mod(U.ADV)
     table = {}
     has_raise = False
     node = None
     for n in fn.body:
         if isinstance(n, ast.If) and "edge" in src(n.test):
             node = n
-    # table form: self._edgeType = {'fEq': 0, ...}[edge] (an unknown string raises KeyError: refused)
+
+    def dict_behind(d):
+        if isinstance(d, ast.Name):
+            defs = [x for x in ast.walk(fn) if isinstance(x, ast.Assign) and src(x.targets[0]) == d.id]
+            if len(defs) == 1:
+                return _literal_dict(defs[0].value)
+            tops = [x for x in mod.tree.body if isinstance(x, ast.Assign) and len(x.targets) == 1 and src(x.targets[0]) == d.id]
+            return _literal_dict(tops[0].value) if len(tops) == 1 and not defs else None
+        if isinstance(d, ast.Attribute) and isinstance(d.value, ast.Name) and d.value.id in ("self", "VParallelAdvection", "cls"):
+            cls = mod.cls("VParallelAdvection")
+            tops = [x for x in cls.body if isinstance(x, ast.Assign) and len(x.targets) == 1 and src(x.targets[0]) == d.attr]
+            inits = [x for x in ast.walk(cls) if isinstance(x, (ast.Assign, ast.AugAssign)) and
+                     src(x.targets[0] if isinstance(x, ast.Assign) else x.target).split("[")[0] == f"self.{d.attr}"]
+            return _literal_dict(tops[0].value) if len(tops) == 1 and not inits else None
+        return _literal_dict(d)
     for a in ast.walk(fn):
-        if isinstance(a, ast.Assign) and src(a.targets[0]) == "self._edgeType" and isinstance(a.value, ast.Subscript) and src(a.value.slice) == "edge":
-            d = a.value.value
-            if isinstance(d, ast.Name):
-                defs = [x for x in ast.walk(fn) if isinstance(x, ast.Assign) and src(x.targets[0]) == d.id]
-                d = defs[0].value if len(defs) == 1 else None
-            if isinstance(d, ast.Dict) and all(isinstance(k, ast.Constant) and isinstance(v, ast.Constant) for k, v in zip(d.keys, d.values)):
-                return {k.value: v.value for k, v in zip(d.keys, d.values)}, True, a
+        if isinstance(a, ast.Assign) and src(a.targets[0]) == attr:
+            v = a.value
+            if isinstance(v, ast.Subscript) and src(v.slice) == "edge":
+                t = dict_behind(v.value)
+                if t is not None:
+                    return t, True, a        # an unknown string raises KeyError (or an explicit test before it): refused
     if node is None:
         raise AnalysisError("C11: boundary-mode dispatch not found in VParallelAdvection.__init__")
     cur = node
@@ -131,7 +299,7 @@ def edge_codes(chk):
                 and isinstance(t.comparators[0], ast.Constant):
             key = t.comparators[0].value
             for a in cur.body:
-                if isinstance(a, ast.Assign) and src(a.targets[0]) == "self._edgeType" and isinstance(a.value, ast.Constant):
+                if isinstance(a, ast.Assign) and src(a.targets[0]) == attr and isinstance(a.value, ast.Constant):
                     table[key] = a.value.value
         if len(cur.orelse) == 1 and isinstance(cur.orelse[0], ast.If):
             cur = cur.orelse[0]
@@ -139,6 +307,130 @@ def edge_codes(chk):
         has_raise = any(isinstance(x, ast.Raise) for x in cur.orelse)
         break
     return table, has_raise, node
+
+
+# ------------------------------------------------------------------ every line of the grid is advanced
+def _zero_line_test(e, polarity, is_line):
+    """does the guard `e`, having truth value `polarity` where the step is SKIPPED, say that the line is identically zero?
+    -> True / False (it can hold for non-zero lines) / None (not understood)"""
+    skip_if_true = polarity
+    while isinstance(e, ast.UnaryOp) and isinstance(e.op, ast.Not):
+        e, skip_if_true = e.operand, not skip_if_true
+
+    def name(c):
+        return c.func.attr if isinstance(c.func, ast.Attribute) else c.func.id if isinstance(c.func, ast.Name) else ""
+
+    def operand(c):
+        if isinstance(c.func, ast.Attribute) and not (isinstance(c.func.value, ast.Name) and c.func.value.id in ("np", "numpy")):
+            return c.func.value if not c.args else None
+        return c.args[0] if len(c.args) == 1 else None
+    if isinstance(e, ast.Call) and name(e) in ("any", "count_nonzero") and operand(e) is not None and is_line(operand(e)):
+        return True if not skip_if_true else False
+    if isinstance(e, ast.Call) and name(e) == "all" and isinstance(operand(e), ast.Compare):
+        c = operand(e)
+        if len(c.ops) == 1 and isinstance(c.ops[0], ast.Eq) and is_line(c.left) and isinstance(c.comparators[0], ast.Constant) \
+                and c.comparators[0].value == 0:
+            return True if skip_if_true else False
+    if isinstance(e, ast.Compare) and len(e.ops) == 1 and isinstance(e.comparators[0], ast.Constant) and e.comparators[0].value == 0 \
+            and isinstance(e.left, ast.Call) and name(e.left) == "count_nonzero" and operand(e.left) is not None and is_line(operand(e.left)):
+        if isinstance(e.ops[0], ast.Eq):
+            return True if skip_if_true else False
+        if isinstance(e.ops[0], (ast.NotEq, ast.Gt)):
+            return True if not skip_if_true else False
+    return None
+
+
+def every_line_advanced(chk, results):
+    """the grid-level steps hand EVERY line (i, j, k) of the local block to step(): a guard around the call leaves lines untouched.
+    Skipping is harmless exactly when step() would not change the skipped line; for lines that are identically zero this is decided
+    from the kernel's own formula of each boundary mode (the interpolating spline of a zero line is zero: S -> 0)."""
+    from .C05 import structured
+    from .C10 import single_defs, resolved
+    from ..core import parent
+    for m in ("gridStep", "gridStepKeepGradient"):
+        q = f"VParallelAdvection.{m}"
+        from .C05 import vpar_entry
+        fn0 = vpar_entry(chk, m)
+        fn, unstructured = structured(fn0)
+        calls = [c for c in ast.walk(fn) if isinstance(c, ast.Call) and isinstance(c.func, ast.Attribute) and c.func.attr == "step"
+                 and src(c.func.value) == "self"]
+        if not calls:
+            continue            # the lines are advanced by a sibling this method delegates to (C-coordinate-role follows the delegation)
+        defs = single_defs(fn)
+        for c in calls:
+            label = f"self.step(...) in {m} runs for every line of the block"
+            conds, odd = [], None
+            ch, p_ = c, parent(c)
+            while p_ is not None and p_ is not fn:
+                if isinstance(p_, ast.If):
+                    in_body = any(ch is x for x in p_.body)
+                    in_else = any(ch is x for x in p_.orelse)
+                    conds.append((p_, True if in_body else (False if in_else else None)))
+                elif isinstance(p_, (ast.While, ast.Try, ast.IfExp, ast.FunctionDef, ast.Lambda)):
+                    odd = p_
+                if isinstance(p_, ast.stmt):
+                    ch = p_
+                p_ = parent(p_)
+            st = c
+            while not isinstance(st, ast.stmt):
+                st = parent(st)
+            early = [n for lp in ast.walk(fn) if isinstance(lp, ast.For) and any(x is c for x in ast.walk(lp)) for n in ast.walk(lp)
+                     if isinstance(n, (ast.Break, ast.Return, ast.Continue)) and (n.lineno, n.col_offset) < (st.lineno, st.col_offset)]
+            if unstructured or odd is not None or early or any(pol is None for _, pol in conds):
+                what = unstructured or (f"`{src(early[0])}` before the call" if early else "the call sits in a construct that is not followed")
+                chk.ob("F2-every-line", c, label, None, f"control flow around the step call not followed: {what}", file=U.ADV, func=q)
+                continue
+            if not conds:
+                chk.ob("F2-every-line", c, label, True, "the step call is executed unconditionally for every (r, z, theta) of the local block",
+                       file=U.ADV, func=q)
+                continue
+            b = agree.bind_call(c, ["f", "dt", "c", "r"]) or {}
+            line = resolved(b["f"], defs) if "f" in b else None
+
+            def is_line(x, line=line):
+                return line is not None and src(resolved(x, defs)) == src(line)
+            verdict, why = True, []
+            for node, pol in conds:
+                test = resolved(node.test, defs)
+                # the step is skipped when the test has the opposite truth value of the arm the call sits in
+                z = _zero_line_test(test, not pol, is_line)
+                cond_txt = src(node.test) if not pol else f"not ({src(node.test)})"
+                if z is True:
+                    # zero lines are skipped: is a zero line a fixed point of step() in every mode on offer?
+                    moved = []
+                    for name, got in results.items():
+                        if got is None:
+                            verdict = None if verdict is not False else verdict
+                            why.append(f"mode '{name}': the kernel's formula was not extracted")
+                            continue
+                        g0 = got.replace(lambda x: getattr(x, "func", None) == S1, lambda x: Integer(0))
+                        try:
+                            same, wit = sym_equal_ws(g0, Integer(0))
+                        except Undecided as e:
+                            verdict = None if verdict is not False else verdict
+                            why.append(f"mode '{name}': {e}")
+                            continue
+                        if not same:
+                            moved.append((name, wit))
+                    if moved:
+                        verdict = False
+                        name, wit = moved[0]
+                        why.insert(0, f"lines that are identically zero are skipped (`if {cond_txt}` -> no step), but in boundary mode '{name}' "
+                                   f"({MODES.get(name, '')} for feet outside [vMin, vMax]) step() does not leave a zero line zero: with the spline of "
+                                   f"the line equal to 0 the kernel still writes {wit['code'] if wit else '?'} in the case {wit['case'] if wit else '?'}; the "
+                                   "skipped line stays 0, so the grid-level step disagrees with step() on the same line")
+                elif z is False:
+                    verdict = False
+                    why.insert(0, f"the step is skipped when `{cond_txt}`, which holds for lines that are not identically zero: these lines are "
+                               "not advected at all")
+                else:
+                    if verdict is not False:
+                        verdict = None
+                    why.append(f"the step call runs only when `{src(node.test) if pol else 'not (' + src(node.test) + ')'}`: whether step() "
+                               "would change the skipped lines is not decided")
+            chk.ob("F2-every-line", conds[0][0], label, verdict,
+                   "; ".join(why) if why else "the guards around the step call only skip lines that step() leaves unchanged in every boundary mode",
+                   file=U.ADV, func=q)
 
 
 def run(chk):
@@ -150,12 +442,21 @@ def run(chk):
         "by gridStepKeepGradient is written by gridStep in every iteration over the radii; "
         "producer/consumer agreement of the mode codes; dispatch and argument roles; the interpolant is recomputed from "
         "the current nodal values before evaluation; index-space typing of the grid-level loops (advection speed and "
-        "radius of the line (i,j,k) being advanced). Interpolation accuracy is not decided.")
+        "radius of the line (i,j,k) being advanced). When the kernel no longer receives ready-made feet and domain ends, the call in "
+        "step and the kernel are analysed as one unit (actuals substituted for parameters: foot = node - c*dt formed on either side, "
+        "domain ends read from the nodes); the boundary rule is judged at the point the kernel itself uses as foot and F2-feet says "
+        "whether that point is v_node - c*dt. F2-every-line: the grid-level steps hand every line of the block to step(); a guard that "
+        "skips identically zero lines is decided from the kernel's own formula of each boundary mode with the line's spline set to 0 "
+        "(the equilibrium fill of mode 'fEq' does not vanish), other data-dependent guards are undecided. The mode table is found behind "
+        "the attribute step hands to the kernel (if/elif chain, literal dict in place, local, class attribute or module constant). "
+        "Interpolation accuracy is not decided.")
     chk.assumptions += ["spline evaluators have the semantics stated by C07 (uninterpreted S1(x,der;family))"]
+    from .C05 import normalise_structures
+    normalise_structures(chk, U.ADV)
     kmod = chk.mod(U.ADVK)
     chk.in_file(U.ADVK)
     chk.functions.add(f"{U.ADVK}:{GEN}")
-    table, has_raise, node = edge_codes(chk)
+    table, has_raise, node = edge_codes(chk, mode_attribute(chk, kmod))
     ok = bad = None
     dup = {v for v in table.values() if list(table.values()).count(v) > 1}
     if set(table) == set(MODES) and not dup and has_raise:
@@ -167,12 +468,41 @@ def run(chk):
     chk.pat("E3-edge-modes", node, "edge -> self._edgeType", ok, f"modes {table}; any other string is refused", bad,
             file=U.ADV, func="VParallelAdvection.__init__")
     fnk = kmod.func(GEN)
+    gformals = [a.arg for a in fnk.args.args]
+    # the kernel alone when it receives the feet and the domain ends ready-made (the feet are then judged at the call: F2-feet);
+    # otherwise the call in step and the kernel are analysed as one unit (what step hands over substituted for the parameters)
+    composed = not {"vPts", "vMin", "vMax", "rPos"} <= set(gformals)
+    model = None
+    if composed:
+        try:
+            model = step_call_model(chk, kmod)
+        except AnalysisError:
+            raise
+        except Exception:          # noqa: BLE001 - the call is then not followed: the rules below say so
+            model = None
+    results = {}
     for name, what in MODES.items():
         if name not in table:
             continue
+        results[name] = None
         try:
-            got, args, i = kernel_mode(chk, kmod, table[name])
-            spec = spec_mode(name, args, i)
+            if composed:
+                if model is None:
+                    raise Undecided("the kernel call of VParallelAdvection.step was not found")
+                got, i = composed_mode(chk, kmod, table[name], model)
+                args = {"vMin": model["canon"]["vMin"], "vMax": model["canon"]["vMax"]}
+                foot = model["canon"]["v"]
+                # the boundary rule is judged at the point the kernel itself takes as foot; whether that point is v_node - c*dt is
+                # rule F2-feet (one defect, one report)
+                own = {_ws_core(a.args[0]) for a in got.atoms(sp.Function) if a.func == S1}
+                if len(own) == 1 and not alg_equal(next(iter(own)), foot) and not next(iter(own)).has(sp.Function("mod")):
+                    foot = next(iter(own))
+                spec = spec_mode(name, dict(model["canon"], v=foot))
+            else:
+                got, args, i = kernel_mode(chk, kmod, table[name])
+                foot = args["vPts"].fn(i)
+                spec = spec_mode(name, args, i)
+            results[name] = got
             okm, wit = sym_equal_ws(got, spec)
             why = f"kernel branch for code {table[name]} does not implement mode '{name}': {wit}"
             if not okm and spec.has(WhileShift) and not got.has(WhileShift):
@@ -182,7 +512,7 @@ def run(chk):
                            f"number of periods to shift is a floor/ceiling: in the case {wit['case']} the kernel evaluates {wit['code']}, i.e. a "
                            "foot on one side of the domain is shifted by one period too few (or not at all) and the spline is evaluated outside "
                            "[vMin, vMax]")
-                elif any(a.func == S1 and alg_equal(a.args[0], args["vMin"] + sp.Function("mod")(args["vPts"].fn(i) - args["vMin"], args["vMax"] - args["vMin"]))
+                elif any(a.func == S1 and alg_equal(a.args[0], args["vMin"] + sp.Function("mod")(foot - args["vMin"], args["vMax"] - args["vMin"]))
                          for a in got.atoms(sp.Function)):
                     why = ("the periodic image is computed as vMin + (v - vMin) % (vMax - vMin), which folds the feet into the half-open interval "
                            "[vMin, vMax): a foot lying exactly on vMax (zero displacement at the last node, or vMax plus whole periods) is moved "
@@ -193,10 +523,12 @@ def run(chk):
                     why = (f"the periodic image is computed by the closed form {str(got)[:160]} instead of shift loops: equivalence with "
                            "'shift by whole periods until inside (vMin, vMax]' is outside the algebra of this rule")
             chk.ob("F2-boundary-rule", fnk, f"mode '{name}' (code {table[name]}): f[i] = ...", okm,
-                   f"feet outside the domain take the {what}; inside, the interpolant at the foot" if okm else why, file=U.ADVK, func=GEN,
-                   facts={"code": str(got)[:300], "spec": str(spec)[:300]})
-        except Undecided as e:
-            chk.ob("F2-boundary-rule", fnk, f"mode '{name}'", None, f"outside the extractable fragment: {e}", file=U.ADVK, func=GEN)
+                   (f"feet outside the domain take the {what}; inside, the interpolant at the foot" +
+                    (" (step and kernel as one unit: foot = v_node - c*dt, domain = [first node, last node])" if composed else "")) if okm else why,
+                   file=U.ADVK, func=GEN, facts={"code": str(got)[:300], "spec": str(spec)[:300]})
+        except (Undecided, KeyError) as e:
+            chk.ob("F2-boundary-rule", fnk, f"mode '{name}'", None, "outside the extractable fragment: " +
+                   (f"the kernel has no parameter {e}" if isinstance(e, KeyError) else str(e)), file=U.ADVK, func=GEN)
     agree.check_wrapper_dispatch(chk, kmod, "v_parallel_advection_eval_step", GEN)
     # call site in VParallelAdvection.step
     step = chk.func(U.ADV, "VParallelAdvection.step")
@@ -206,7 +538,17 @@ def run(chk):
         raise AnalysisError("C11: kernel call not found in VParallelAdvection.step")
     c = calls[0]
     formals = [a.arg for a in kmod.func("v_parallel_advection_eval_step").args.args]
-    agree.check_roles(chk, U.ADV, "VParallelAdvection.step", c, formals, {
+    from .C10 import single_defs, resolved
+    sdefs = single_defs(step)
+    # single-assignment locals of step stand for their definitions at the call
+    cres = ast.Call(func=c.func, args=[resolved(a, sdefs) if not isinstance(a, ast.Name) or a.id not in ("f", "r") else a for a in c.args],
+                    keywords=[ast.keyword(arg=k.arg, value=resolved(k.value, sdefs)) for k in c.keywords])
+    for a0, a1 in zip(list(c.args) + [k.value for k in c.keywords], list(cres.args) + [k.value for k in cres.keywords]):
+        for x in ast.walk(a1):
+            ast.copy_location(x, a0)
+    ast.copy_location(cres, c)
+    ast.fix_missing_locations(cres)
+    agree.check_roles(chk, U.ADV, "VParallelAdvection.step", cres, formals, {
         "f": "f", "r": "rPos", "self._points[0]": "vMin", "self._points[-1]": "vMax",
         "self._spline.basis.knots": "kts", "self._spline.basis.degree": "deg", "self._spline.coeffs": "coeffs",
         "self._edgeType": "bound", "self._spline.basis.cubic_uniform": "cubic_uniform_splines",
@@ -240,14 +582,32 @@ def run(chk):
     if feet is not None:
         P, cc, dt = sp.symbols("P c dt", real=True)
         try:
-            val = NpSym(env={"c": cc, "dt": dt}, hooks={"self._points": P}).ev(feet)
+            from .C05 import library_forms
+            import copy as _copy
+            val = NpSym(env={"c": cc, "dt": dt}, hooks={"self._points": P}).ev(library_forms(_copy.deepcopy(feet)))
             okf = bool(alg_equal(val, P - cc * dt))
             detail = "feet are v_node - c*dt" if okf else \
                 f"the feet handed to the kernel are `{src(feet)}` = {val}, expected v_node - c*dt = {P - cc * dt}: the interpolant is evaluated at other points"
         except Undecided as e:
             detail = f"feet expression `{src(feet)}` outside the extractable fragment: {e}"
-    chk.ob("F2-feet", feet_node if feet_node is not None else c, f"vPts <- {src(feet_node)[:90] if feet_node is not None else '?'}", okf, detail,
-           file=U.ADV, func="VParallelAdvection.step")
+    if composed and "vPts" not in b:
+        # the feet are formed inside the kernel from what step hands over: read them off the composed formula (the point at which the
+        # interpolant is evaluated for a foot inside the domain)
+        feet_node, okf, detail = c, None, "the evaluation point of the interpolant was not extracted (see F2-boundary-rule)"
+        got = next((results[m_] for m_ in ("null", "fEq") if results.get(m_) is not None), None)
+        if got is not None and model is not None:
+            pts_ = {a.args[0] for a in got.atoms(sp.Function) if a.func == S1}
+            pts_ = {_ws_core(x) for x in pts_}
+            if len(pts_) == 1:
+                pt = next(iter(pts_))
+                okf = bool(alg_equal(pt, model["canon"]["v"]))
+                detail = "the kernel evaluates the interpolant at (node handed over) - (shift handed over) = v_node - c*dt" if okf else \
+                    (f"with the arguments of the call in step the kernel evaluates the interpolant at {pt}, expected v_node - c*dt = "
+                     f"{model['canon']['v']}")
+        chk.ob("F2-feet", c, "feet = v_node - c*dt (formed by step and kernel together)", okf, detail, file=U.ADV, func="VParallelAdvection.step")
+    else:
+        chk.ob("F2-feet", feet_node if feet_node is not None else c, f"vPts <- {src(feet_node)[:90] if feet_node is not None else '?'}", okf, detail,
+               file=U.ADV, func="VParallelAdvection.step")
     pts = [n for n in ast.walk(chk.func(U.ADV, "VParallelAdvection.__init__")) if isinstance(n, ast.Assign)
            and src(n.targets[0]) == "self._points"]
     okp = badp = None
@@ -280,6 +640,13 @@ def run(chk):
     from .C05 import parallel_gradient, v_parallel
     pg_attrs, pg_summ = parallel_gradient(chk)
     v_parallel(chk, pg_summ)
+    try:
+        every_line_advanced(chk, results)
+    except AnalysisError:
+        raise
+    except Exception as e:          # noqa: BLE001 - undecided, the other rules keep their verdicts
+        chk.ob("F2-every-line", chk.func(U.ADV, "VParallelAdvection.gridStep"), "self.step(...) runs for every line of the block", None,
+               f"control flow around the step calls not followed: {type(e).__name__}: {e}", file=U.ADV, func="VParallelAdvection.gridStep")
     from .. import lints as _l
     _l.check_cache_keys(chk, U.ADV, "VParallelAdvection")
     chk.floor("F2-", 3)
